@@ -5,7 +5,16 @@ use core::mem;
 use std;
 // in-place thread create
 use std::sync::RwLock;
+#[cfg(not(brotli_verif))]
 use std::sync::{Arc, Condvar, Mutex};
+#[cfg(not(brotli_verif))]
+use std::thread::{spawn as thread_spawn, JoinHandle as ThreadJoinHandle};
+#[cfg(brotli_verif)]
+use std::sync::Arc;
+#[cfg(brotli_verif)]
+use crate::enc::verif_sched::{
+    event as verif_event, spawn as thread_spawn, Condvar, JoinHandle as ThreadJoinHandle, Mutex,
+};
 
 use crate::enc::backward_references::UnionHasher;
 use crate::enc::fixed_queue::{FixedQueue, MAX_THREADS};
@@ -80,7 +89,7 @@ pub struct WorkerPool<
     U: Send + 'static + Sync,
 > {
     queue: GuardedQueue<ReturnValue, ExtraInput, Alloc, U>,
-    join: [Option<std::thread::JoinHandle<()>>; MAX_THREADS],
+    join: [Option<ThreadJoinHandle<()>>; MAX_THREADS],
 }
 
 impl<
@@ -96,12 +105,23 @@ impl<
             let mut local_queue = lock.lock().unwrap();
             local_queue.immediate_shutdown = true;
             cvar.notify_all();
+            #[cfg(brotli_verif)]
+            verif_event(
+                "d",
+                Some((
+                    local_queue.jobs.size(),
+                    local_queue.num_in_progress,
+                    local_queue.results.size(),
+                )),
+            );
         }
         for thread_handle in self.join.iter_mut() {
             if let Some(th) = thread_handle.take() {
                 th.join().unwrap();
             }
         }
+        #[cfg(brotli_verif)]
+        verif_event("!", None);
     }
 }
 impl<
@@ -129,11 +149,22 @@ impl<
                     possible_job = if let Some(res) = local_queue.jobs.pop() {
                         cvar.notify_all();
                         local_queue.num_in_progress += 1;
+                        #[cfg(brotli_verif)]
+                        verif_event(
+                            &std::format!("p{}", res.work_id),
+                            Some((
+                                local_queue.jobs.size(),
+                                local_queue.num_in_progress,
+                                local_queue.results.size(),
+                            )),
+                        );
                         res
                     } else if local_queue.shutdown {
                         break;
                     } else {
                         let _lock = cvar.wait(local_queue); // unlock immediately, unfortunately
+                        #[cfg(brotli_verif)]
+                        verif_event("k", None);
                         continue;
                     };
                 }
@@ -152,12 +183,25 @@ impl<
                     break; // poisoned lock
                 };
             }
+            #[cfg(brotli_verif)]
+            let verif_id = ret.work_id;
+            #[cfg(brotli_verif)]
+            verif_event(&std::format!("r{}", verif_id), None);
             {
                 let (lock, cvar) = &*queue;
                 let mut local_queue = lock.lock().unwrap();
                 local_queue.num_in_progress -= 1;
                 local_queue.results.push(ret).unwrap();
                 cvar.notify_all();
+                #[cfg(brotli_verif)]
+                verif_event(
+                    &std::format!("b{}", verif_id),
+                    Some((
+                        local_queue.jobs.size(),
+                        local_queue.num_in_progress,
+                        local_queue.results.size(),
+                    )),
+                );
             }
         }
     }
@@ -193,8 +237,8 @@ impl<
     }
     fn start(
         queue: Arc<(Mutex<WorkQueue<ReturnValue, ExtraInput, Alloc, U>>, Condvar)>,
-    ) -> std::thread::JoinHandle<()> {
-        std::thread::spawn(move || Self::do_work(queue))
+    ) -> ThreadJoinHandle<()> {
+        thread_spawn(move || Self::do_work(queue))
     }
     pub fn new(num_threads: usize) -> Self {
         let queue = Arc::new((Mutex::new(WorkQueue::default()), Condvar::new()));
@@ -331,7 +375,18 @@ impl<
                         false
                     }
                 }) {
-                Some(matched) => return Ok(matched.result),
+                Some(matched) => {
+                    #[cfg(brotli_verif)]
+                    verif_event(
+                        &std::format!("j{}", self.work_id),
+                        Some((
+                            local_queue.jobs.size(),
+                            local_queue.num_in_progress,
+                            local_queue.results.size(),
+                        )),
+                    );
+                    return Ok(matched.result);
+                }
                 None => local_queue = cvar.wait(local_queue).unwrap(),
             };
         }
@@ -393,6 +448,15 @@ where
                     work_id,
                 }));
                 cvar.notify_all();
+                #[cfg(brotli_verif)]
+                verif_event(
+                    &std::format!("s{}", work_id),
+                    Some((
+                        local_queue.jobs.size(),
+                        local_queue.num_in_progress,
+                        local_queue.results.size(),
+                    )),
+                );
                 break;
             } else {
                 local_queue = cvar.wait(local_queue).unwrap(); // hope room frees up
